@@ -503,3 +503,152 @@ impl Scenario for ConcScenario {
         (fs.into_iter().filter(|f| self.owns(&f.rule)).collect(), history_hash(&rr))
     }
 }
+
+// ---------------------------------------------------------------------------
+// C15 under concurrency: the reported count at the quiescent points of a concurrent history
+// ---------------------------------------------------------------------------
+
+/// C05's workload with `get_topic_entry_count` asked at every quiescent point: after the single-threaded prologue,
+/// after all client threads have been joined (before anything is drained), and after each drain.
+pub fn gen_conc_counts(seed: u64) -> Plan {
+    let mut plan = gen_conc(seed, "C15");
+    plan.profile = "conc-counts".into();
+    let mut next = plan.incarnations.iter().flat_map(|i| i.phases.iter()).flat_map(|p| p.threads.iter()).flat_map(|t| t.iter()).map(|o| o.id).max().unwrap_or(0) + 1;
+    let n_topics = plan.topics.len() as u32;
+    let mut id = || {
+        next += 1;
+        next - 1
+    };
+    let inc0 = &mut plan.incarnations[0];
+    for t in 0..n_topics {
+        inc0.phases[0].threads[0].push(Op { id: id(), kind: OpKind::Count { inst: 0, topic: t } });
+    }
+    let post = std::mem::take(&mut inc0.phases[2].threads[0]);
+    let mut v = Vec::new();
+    for t in 0..n_topics {
+        v.push(Op { id: id(), kind: OpKind::Count { inst: 0, topic: t } });
+    }
+    for o in post {
+        let drained = if let OpKind::Drain { topic, .. } = &o.kind { Some(*topic) } else { None };
+        v.push(o);
+        if let Some(t) = drained {
+            v.push(Op { id: id(), kind: OpKind::Count { inst: 0, topic: t } });
+        }
+    }
+    inc0.phases[2].threads[0] = v;
+    plan
+}
+
+/// expected count = entries of appends that returned success - entries returned by consuming reads (all of them
+/// have returned at a quiescent point; the history file is in the simulator's total order)
+pub fn judge_conc_counts(plan: &Plan, rr: &RunResult) -> (Vec<Finding>, BTreeMap<String, u64>) {
+    let mut out = Vec::new();
+    let mut stats: BTreeMap<String, u64> = BTreeMap::new();
+    let ops = index_ops(plan);
+    let Some(inc) = rr.incs.first() else { return (out, stats) };
+    if !matches!(inc.exit, Exit::Code(0)) {
+        let rule = match inc.exit {
+            Exit::Code(78) => "any.deadlock",
+            Exit::Code(79) => "any.nonterm",
+            _ => "harness.exit",
+        };
+        out.push(Finding::new(rule, 0, 0, format!("incarnation 0 ended with {:?}", inc.exit)));
+        return (out, stats);
+    }
+    let mut appended: BTreeMap<u32, u64> = BTreeMap::new();
+    let mut returned: BTreeMap<u32, u64> = BTreeMap::new();
+    let mut failed_appends = 0u64;
+    for e in inc.events.iter().filter(|e| e.t == "ret") {
+        let (Some(id), Some(res)) = (e.op, e.res.as_ref()) else { continue };
+        let Some(op) = ops.get(&id) else { continue };
+        match &op.kind {
+            OpKind::Append { topic, .. } => {
+                if res.k == "ok" {
+                    *appended.entry(*topic).or_insert(0) += 1;
+                } else {
+                    failed_appends += 1;
+                }
+            }
+            OpKind::BatchAppend { topic, lens, .. } => {
+                if res.k == "ok" {
+                    *appended.entry(*topic).or_insert(0) += lens.len() as u64;
+                } else {
+                    failed_appends += 1;
+                }
+            }
+            OpKind::ReadNext { topic, checkpoint: true, .. } | OpKind::BatchRead { topic, checkpoint: true, start: None, .. } | OpKind::Drain { topic, .. } => {
+                if res.k == "ok" {
+                    *returned.entry(*topic).or_insert(0) += res.entries.len() as u64;
+                }
+            }
+            OpKind::Count { topic, .. } => {
+                let a = appended.get(topic).copied().unwrap_or(0);
+                let r = returned.get(topic).copied().unwrap_or(0);
+                let expect = a.saturating_sub(r);
+                let got = res.val.unwrap_or(u64::MAX);
+                *stats.entry("count_checked".into()).or_insert(0) += 1;
+                if failed_appends > 0 {
+                    *stats.entry("count_checked_after_failed_append".into()).or_insert(0) += 1;
+                }
+                if res.k == "ok" && got != expect {
+                    out.push(
+                        Finding::new("c15.count_concurrent", 0, id, format!("count={} at a quiescent point of a concurrent history, but appended_ok={} returned_by_consuming_reads={} (expected {})", got, a, r, expect))
+                            .fact("got", serde_json::json!(got))
+                            .fact("expected", serde_json::json!(expect))
+                            .fact("failed_appends_before", serde_json::json!(failed_appends)),
+                    );
+                }
+            }
+            _ => {}
+        }
+    }
+    (out, stats)
+}
+
+pub struct ConcCountsScenario;
+
+impl Scenario for ConcCountsScenario {
+    fn id(&self) -> &'static str {
+        "C15"
+    }
+    fn rule_text(&self) -> String {
+        String::new()
+    }
+    fn plan_for(&self, seed_r: u64) -> Option<Plan> {
+        Some(gen_conc_counts(seed_r))
+    }
+    fn run_one(&self, seed_r: u64, env: &Env) -> Outcome {
+        let plan = gen_conc_counts(seed_r);
+        let rr = run_plan(&env.bins, &plan, &RunOpts::default());
+        let mut out = Outcome::default();
+        out.executions = rr.incs.len() as u64;
+        out.digest = history_hash(&rr);
+        absorb_summary(&mut out, &rr);
+        out.stat("sim_clock_ms", sim_clock_ms(&rr, &plan));
+        out.stat(&format!("backend.{}", plan.incarnations[0].backend), 1);
+        out.stat(&format!("policy.{}", plan.incarnations[0].sched.policy), 1);
+        let (fs, stats) = judge_conc_counts(&plan, &rr);
+        for (k, v) in stats.iter() {
+            out.stat(&format!("reach.conc.{}", k), *v);
+        }
+        if stats.get("count_checked").copied().unwrap_or(0) > 0 {
+            out.keys.push(plan_shape_key(&plan, &rr));
+        }
+        for f in fs {
+            if f.rule.starts_with("c15.") {
+                out.findings.push((plan.clone(), f));
+            } else if f.rule.starts_with("harness.") {
+                out.harness_errors.push(f.detail.clone());
+            } else {
+                out.stat(&format!("other_rule.{}", f.rule), 1);
+            }
+        }
+        out.sample = Some(render_sample(&plan));
+        out
+    }
+    fn judge_plan(&self, plan: &Plan, env: &Env) -> (Vec<Finding>, u64) {
+        let rr = run_plan(&env.bins, plan, &RunOpts::default());
+        let (fs, _) = judge_conc_counts(plan, &rr);
+        (fs.into_iter().filter(|f| f.rule.starts_with("c15.")).collect(), history_hash(&rr))
+    }
+}
